@@ -49,7 +49,7 @@ type c11Resp struct {
 	// FailWrapsEOF: the failing callback returns an error that wraps io.EOF
 	// (still "another error": only the unwrapped io.EOF means "resume later")
 	FailWrapsEOF bool `json:"fail_wraps_eof,omitempty"`
-	Yield  int    `json:"yield"`   // Gosched calls between packets while feeding
+	Yield        int  `json:"yield"` // Gosched calls between packets while feeding
 }
 
 type c11Case struct {
